@@ -113,9 +113,7 @@ mut("m21-rr-dist-skips-last", "C15", H + "rr_cache.hpp",
     "            std::uniform_int_distribution<size_t> dist{0, m_open_list_end - 1};", "            std::uniform_int_distribution<size_t> dist{0, m_open_list_end > 1 ? m_open_list_end - 2 : 0};")
 mut("m22-rr-dist-skips-first", "C15", H + "rr_cache.hpp",
     "            std::uniform_int_distribution<size_t> dist{0, m_open_list_end - 1};", "            std::uniform_int_distribution<size_t> dist{m_open_list_end > 1 ? size_t{1} : size_t{0}, m_open_list_end - 1};")
-mut("m50-rr-update-writes-neighbour-after-erase", "C01", H + "rr_cache.hpp",
-    "        element& e = m_elements[keyed_position->second];\n        e.m_value  = std::move(value);\n    }",
-    "        element& e = m_elements[m_open_list[m_elements[keyed_position->second].m_open_list_position]];\n        e.m_value  = std::move(value);\n    }")
+# (m50, "rr update writes through m_open_list[position]", is an equivalent mutant once the back-pointers are kept in sync by the D1 fix.)
 mut("m35-lfu-erase_range-lock-per-element", "C06", H + "lfu_cache.hpp",
     "        std::lock_guard guard{m_lock};\n        for (auto& key : key_range)\n        {\n            auto keyed_position = m_keyed_elements.find(key);",
     "        for (auto& key : key_range)\n        {\n            std::lock_guard guard{m_lock};\n            auto keyed_position = m_keyed_elements.find(key);")
@@ -151,7 +149,7 @@ def main():
     with open(os.path.join(OUT, "INDEX.txt"), "w") as f:
         f.write("m01-lru-insert-range-lock-per-element C06\n")
         # reverts of the four fix: commits (git diff <fix> <fix>^ -- inc)
-        f.write("r-revert-fix-d1 C01,C03,C08,C15\nr-revert-fix-d2 C14\nr-revert-fix-d3 C16,C17\nr-revert-fix-d4 C07,C06\n")
+        f.write("r-revert-fix-d1 C01,C08\nr-revert-fix-d2 C14\nr-revert-fix-d3 C16,C17\nr-revert-fix-d4 C07,C06\n")
         for name, props in index:
             f.write("%s %s\n" % (name, props))
     print("wrote %d mutants" % len(index))
